@@ -152,6 +152,23 @@ Theorem C16_feeder_split_aes : forall m d pad k iv ctr chunks,
 Proof. intros. apply stream_crypt_split. exact aes_E_len. Qed.
 Print Assumptions C16_feeder_split_aes.
 
+(* encrypt_stream / decrypt_stream (_feed_stream): whatever pieces the successive
+   in_stream.read(block_size) calls return (any lengths, up to the first empty read), what is
+   written to out_stream is what the feeder returns for the concatenation of those pieces fed
+   in one chunk - so with the theorems below, the SP 800-38A result for the whole stream. *)
+Theorem C16_stream_split : forall (E D : bytes -> bytes -> bytes),
+  (forall k b, length b = 16%nat -> length (E k b) = 16%nat) ->
+  forall m d pad k iv ctr reads,
+  crypt_stream E D m d pad k iv ctr reads = stream_crypt E D m d pad k iv ctr [concat (until_empty reads)] /\
+  (Forall (fun c : bytes => c <> []) reads ->
+   crypt_stream E D m d pad k iv ctr reads = stream_crypt E D m d pad k iv ctr [concat reads]).
+Proof.
+  intros E D HE m d pad k iv ctr reads. split.
+  - apply crypt_stream_split, HE.
+  - intro H. rewrite (crypt_stream_split E D HE), (until_empty_all reads H). reflexivity.
+Qed.
+Print Assumptions C16_stream_split.
+
 (* OFB and CTR: the feeders return the SP 800-38A encryption (= decryption) of the whole
    input, however it is cut into chunks, for padding 'default' and 'none', every usable key,
    iv (None = 16 zero bytes) and initial counter value *)
